@@ -4,7 +4,7 @@ import json, os, re
 ROOT = "/verif"
 res = json.load(open(ROOT + "/seeded/RESULTS.json"))
 def key(s):
-    m = re.match(r"C(\d+)(?:-(\d+))?$", s); return (int(m.group(1)), int(m.group(2) or 1))
+    m = re.match(r"C(\d+)(?:-(R?)(\d+))?$", s); return (int(m.group(1)), 100 if m.group(2) else 0, int(m.group(3) or 1))
 rows = ["| seed | change (sub-agent's summary) | trigger | caught by | first clause reported |", "|---|---|---|---|---|"]
 for sid in sorted(res, key=key):
     r = res[sid]
